@@ -70,6 +70,8 @@ pub struct C16 {
     /// after the k-th cancelled write (before the resuming sync) lower max_len to the largest payload still to come
     /// (only when max_len_mode == 0): the frame in flight was already admitted
     pub knob_mid: Option<u32>,
+    /// call the writer()/writer_mut() accessors (without writing) whenever no future is in flight
+    pub touch: bool,
     pub sink: Vec<Step>,
     /// outcomes of the sink's poll_flush, whoever calls it (Pending / Err(kind) / Ok)
     pub flush_lane: Vec<Step>,
@@ -399,6 +401,10 @@ impl C16 {
                 }
             }
             let max_len = max_len_for(idx);
+            if self.touch {
+                let _ = writer.writer_mut();
+                let _ = writer.writer();
+            }
             if it.sync_before {
                 idle_sync(&mut w, &mut writer, &waker, &format!("idle sync before write #{idx}"), false)?;
             }
@@ -453,6 +459,9 @@ impl C16 {
                             obs.borrow_mut().probe(pb::max_len_changed_mid_run);
                         }
                         write_cancels += 1;
+                    }
+                    if self.touch {
+                        let _ = writer.writer_mut();
                     }
                     sync_to_completion(&mut w, &mut writer, &waker, &format!("sync after cancelled write #{idx}"))?;
                 }
@@ -541,6 +550,7 @@ impl Scenario for C16 {
             .set("knob_at", self.knob_at)
             .set("rewrap_at", self.rewrap_at)
             .set("knob_mid", self.knob_mid)
+            .set("touch", self.touch)
             .set("sink", lane_to_json(&self.sink))
             .set("flush_lane", lane_to_json(&self.flush_lane))
             .set("caller", decides_to_json(&self.caller))
@@ -554,6 +564,7 @@ impl Scenario for C16 {
             knob_at: j.get("knob_at").and_then(|c| c.as_u64()).unwrap_or(0) as u32,
             rewrap_at: j.get("rewrap_at").and_then(|c| c.as_u64()).map(|c| c as u32),
             knob_mid: j.get("knob_mid").and_then(|c| c.as_u64()).map(|c| c as u32),
+            touch: j.get("touch").and_then(|c| c.as_bool()).unwrap_or(false),
             sink: lane_from_json(j.get("sink"))?,
             flush_lane: if j.get("flush_lane").is_some() { lane_from_json(j.get("flush_lane"))? } else { Vec::new() },
             caller: decides_from_json(j.get("caller"))?,
@@ -628,6 +639,9 @@ impl Scenario for C16 {
         if self.knob_mid.is_some() {
             out.push(C16 { knob_mid: None, ..self.clone() });
         }
+        if self.touch {
+            out.push(C16 { touch: false, ..self.clone() });
+        }
         out
     }
 }
@@ -639,7 +653,7 @@ fn val(ty: Ty, size: u32, seed: u64) -> Item {
 }
 
 fn base(items: Vec<Item>) -> C16 {
-    C16 { items, max_len_mode: 0, init_buf: 0, use_ctx: false, knob_at: 0, rewrap_at: None, knob_mid: None, sink: vec![], flush_lane: vec![], caller: vec![] }
+    C16 { items, max_len_mode: 0, init_buf: 0, use_ctx: false, knob_at: 0, rewrap_at: None, knob_mid: None, touch: false, sink: vec![], flush_lane: vec![], caller: vec![] }
 }
 
 fn total_len(items: &[Item]) -> usize {
@@ -655,7 +669,7 @@ fn total_len(items: &[Item]) -> usize {
 /// Value types written through the async writer (any encodable type; no decode side needed).
 const W_TYS: &[Ty] = &[
     Ty::U64, Ty::Str, Ty::String, Ty::Bytes, Ty::Tuple3, Ty::Borrowed, Ty::Tree, Ty::VecU32, Ty::OptStr, Ty::MapRec, Ty::Gappy, Ty::Shape, Ty::Unit,
-    Ty::I32, Ty::F64, Ty::Tokens, Ty::EncOps, Ty::BTreeMapU32Str, Ty::Duration, Ty::VecString, Ty::TaggedRec, Ty::Point, Ty::Color,
+    Ty::I32, Ty::F64, Ty::Tokens, Ty::EncOps, Ty::Empty, Ty::BTreeMapU32Str, Ty::Duration, Ty::VecString, Ty::TaggedRec, Ty::Point, Ty::Color,
 ];
 
 fn generate_single(r: &mut Rng, tier: Tier) -> C16 {
@@ -729,6 +743,7 @@ fn generate_single(r: &mut Rng, tier: Tier) -> C16 {
         knob_at: if r.chance(1, 4) { r.below(nitems as u64) as u32 } else { 0 },
         rewrap_at: if r.chance(1, 6) { Some(r.below(nitems as u64) as u32) } else { None },
         knob_mid: if r.chance(1, 4) { Some(r.below(3) as u32) } else { None },
+        touch: r.chance(1, 3),
         sink,
         flush_lane: if r.chance(1, 3) {
             (0..r.usize_in(1, 12)).map(|_| match r.below(4) { 0 => Step::Pending, 1 => Step::Err(*r.pick(&ERR_KINDS)), _ => Step::Xfer(1) }).collect()
